@@ -32,19 +32,28 @@ type DCase struct {
 
 type drec struct {
 	mu  sync.Mutex
-	got map[[2]uint64]uint32 // (seid, urr) -> flags word
-	n   int
+	got    map[[2]uint64]uint32 // (seid, urr) -> flags word
+	n      int
+	queued []report.SessReport
 }
 
+// NotifySessReport only queues, as the PFCP server does; read() looks at the reports once the listener has served the message.
 func (r *drec) NotifySessReport(sr report.SessReport) {
 	r.mu.Lock()
 	defer r.mu.Unlock()
-	for _, rep := range sr.Reports {
-		if u, ok := rep.(report.USAReport); ok {
-			r.got[[2]uint64{sr.SEID, uint64(u.URRID)}] = u.USARTrigger.Flags
-			r.n++
+	r.queued = append(r.queued, sr)
+}
+
+func (r *drec) read() {
+	for _, sr := range r.queued {
+		for _, rep := range sr.Reports {
+			if u, ok := rep.(report.USAReport); ok {
+				r.got[[2]uint64{sr.SEID, uint64(u.URRID)}] = u.USARTrigger.Flags
+				r.n++
+			}
 		}
 	}
+	r.queued = nil
 }
 func (r *drec) PopBufPkt(uint64, uint16) ([]byte, bool) { return nil, false }
 
@@ -77,7 +86,7 @@ func checkDelivered(c DCase) *vcore.Violation {
 		ddrv = d
 	}
 	drc.mu.Lock()
-	drc.got, drc.n = map[[2]uint64]uint32{}, 0
+	drc.got, drc.n, drc.queued = map[[2]uint64]uint32{}, 0, nil
 	drc.mu.Unlock()
 	var rs []simkernel.MReport
 	for i, w := range c.Words {
@@ -92,6 +101,7 @@ func checkDelivered(c DCase) *vcore.Violation {
 	}
 	drc.mu.Lock()
 	defer drc.mu.Unlock()
+	drc.read()
 	if drc.n != len(rs) {
 		return vcore.Violatef("delivered-count", "REPORT message with %d usage reports: %d delivered", len(rs), drc.n)
 	}
